@@ -151,3 +151,18 @@ Theorem trajectory_sparse_eq_dense_prox_newton_direction_fixpoint :
   = @_descent_direction__fit_intercept_False__ws_strategy_fixpoint R _ raw_hessian prox_1d X y w_epoch Xw_epoch grad_ws ws tol.
 Proof. exact descent_direction_sparse_eq_dense_fixpoint. Qed.
 Print Assumptions trajectory_sparse_eq_dense_prox_newton_direction_fixpoint.
+
+(* ProxNewton: the regenerated sparse backtracking line search (no intercept) equals the dense one *)
+Require Import SK.Lemmas.PnSparseLineSearch.
+Theorem trajectory_sparse_eq_dense_prox_newton_line_search :
+  forall (pen_value : list R -> res R) (raw_grad : list R -> list R -> res (list R)) (n : nat) (M : csc) (X : list (list R)) (y : list R),
+  (forall j, (0 <= j < Z.of_nat (length X))%Z ->
+     exists lo hi, col_bounds M j lo hi /\ wf_col n M lo hi /\ mcol X j = Ok (dense_col n M lo hi)) ->
+  (forall Xw g, length Xw = n -> raw_grad y Xw = Ok g -> length g = n) ->
+  (zlen (cindptr M) - 1)%Z = zlen X ->
+  forall w Xw delta Xdelta ws,
+  Forall (fun j => (0 <= j < Z.of_nat (length X))%Z) ws -> length Xw = n -> length Xdelta = n ->
+  @_backtrack_line_search_s__fit_intercept_False R _ pen_value raw_grad (cdata M) (cindptr M) (cindices M) y w Xw delta Xdelta ws
+  = @_backtrack_line_search__fit_intercept_False R _ pen_value raw_grad X y w Xw delta Xdelta ws.
+Proof. exact line_search_sparse_eq_dense. Qed.
+Print Assumptions trajectory_sparse_eq_dense_prox_newton_line_search.
